@@ -1,7 +1,8 @@
 #!/bin/bash
-# Development tool: run every claimed check (quick; the seed's own property
-# also thorough when quick is silent) against a scratch worktree of /repo HEAD
-# with one seeded change applied; write seeded/<name>/meta.json.
+# Development tool: run the claimed checks that look at the packages a seeded
+# change touches (quick tier; the seed's own property also thorough when quick
+# is silent) against a scratch worktree of /repo HEAD with the change applied;
+# write seeded/<name>/meta.json.
 # usage: tools_seedone.sh <name>
 set -u
 export GOFLAGS=-mod=mod GOPROXY=off GOSUMDB=off GOTOOLCHAIN=local
@@ -13,28 +14,44 @@ wt="/tmp/wt-seed-$n-$$"; ev="/tmp/ev-seed-$n-$$"; mkdir -p "$ev"
 git -C /repo worktree add -q --detach "$wt" HEAD || exit 2
 trap 'git -C /repo worktree remove --force "$wt" >/dev/null 2>&1; rm -rf "$ev"' EXIT
 if ! git -C "$wt" apply "/verif/$d/patch.diff" 2>/dev/null; then echo "$n: patch does not apply"; exit 1; fi
+dirs=$(grep '^+++ b/' "$d/patch.diff" | sed 's|^+++ b/||' | xargs -n1 dirname | sort -u)
+# properties whose quick patterns cover a touched directory (plus the seed's own)
+sel="$prop"
+while read -r id pats; do
+  for pat in $pats; do
+    p="${pat#./}"
+    for dir in $dirs; do
+      case "$p" in
+        *...) base="${p%/...}"; case "$dir/" in "$base"/*) sel="$sel $id";; esac;;
+        *) [ "$p" = "$dir" ] && sel="$sel $id";;
+      esac
+    done
+  done
+done < <(./bin/verifcheck -list-quick)
+sel=$(echo $sel | tr ' ' '\n' | sort -u | tr '\n' ' ')
 claimed=$(./bin/verifcheck -list | tr '\n' ' ')
 caught=""; report=""
-for p in $claimed; do
-  out=$(VERIF_REPO="$wt" VERIF_EVIDENCE_DIR="$ev" ./bin/verifcheck -repo "$wt" -verif /verif -property "$p" -tier quick 2>&1); rc=$?
+for p in $sel; do
+  echo " $claimed " | grep -q " $p " || continue
+  out=$(VERIF_EVIDENCE_DIR="$ev" ./bin/verifcheck -repo "$wt" -verif /verif -property "$p" -tier quick 2>&1); rc=$?
   tier=quick
   if [ $rc -eq 0 ] && [ "$p" = "$prop" ]; then
-    out=$(VERIF_REPO="$wt" VERIF_EVIDENCE_DIR="$ev" ./bin/verifcheck -repo "$wt" -verif /verif -property "$p" -tier thorough 2>&1); rc=$?; tier=thorough
+    out=$(VERIF_EVIDENCE_DIR="$ev" ./bin/verifcheck -repo "$wt" -verif /verif -property "$p" -tier thorough 2>&1); rc=$?; tier=thorough
   fi
   if [ $rc -ne 0 ]; then caught="$caught $p($tier)"; report="$report$(echo "$out" | grep -E "VIOLATED|UNDECIDED" | head -2 | cut -c1-300 | sed "s/^/[$p] /")
 "; fi
 done
 own="not-claimed"
 if echo " $claimed " | grep -q " $prop "; then own="missed"; echo "$caught" | grep -q "$prop(" && own="caught"; fi
-echo "$n: own=$own by:${caught:- none}"
-python3 - "$d" "$prop" "$own" "$caught" "$report" <<'PY'
+echo "$n: own=$own by:${caught:- none} (ran: $sel)"
+python3 - "$d" "$prop" "$own" "$caught" "$report" "$sel" <<'PY'
 import json,sys,os
-d,prop,own,caught,report=sys.argv[1:6]
+d,prop,own,caught,report,sel=sys.argv[1:7]
 a=json.load(open(os.path.join(d,'meta.agent.json')))
 m={"property":prop,"breaks":a.get("summary",""),"needs_to_manifest":a.get("needs_to_manifest",""),
    "files_changed":a.get("files_changed",[]),
    "confirmed_by":"tools_seedverify.sh in a scratch worktree of /repo HEAD: patch applies, go build ./... ok, full suite passes with the patch, demonstration fails with the patch and passes without it (demo placed at %s)"%open(os.path.join(d,'demo_dest.txt')).read().strip(),
-   "own_property_check":own,"caught_by":caught.split(),"check_report":report.strip().split("\n") if report.strip() else []}
+   "checks_run":sel.split(),"own_property_check":own,"caught_by":caught.split(),"check_report":report.strip().split("\n") if report.strip() else []}
 with open(os.path.join(d,'meta.json'),'w') as f:
     json.dump(m,f,indent=1); f.write("\n")
 PY
